@@ -9,7 +9,8 @@ import msggen
 
 THEOREMS = ["decodeStream_acct", "C09.c09_stream_step", "C09.c09_stream_end", "decodeStream_ok", "specStream_inner", "stream_run",
             "MsgWF.c09_stream", "MsgWF.c09_stream_cons", "MsgWF.c01_command", "MsgWF.c01_response",
-            "decodeStream_sound", "AcceptIff.stream_accept_iff"]
+            "decodeStream_sound", "AcceptIff.stream_accept_iff",
+            "C09.c09_objects", "C09.c09_objects_of_accepted", "e2oStream_groups", "separate_stream", "cmd_events_to_obj", "rsp_events_to_obj"]
 
 
 def run(ctx, replay_case):
@@ -126,6 +127,24 @@ def run(ctx, replay_case):
             ctx.violations.append({"kind": "concrete", "signature": "stream:objects",
                                    "what": f"events_to_objs of a decoded stream is not one object per message in order (message {k})",
                                    "replay": {**c.replay("S"), "expected": e[:300], "observed": g[:300]}})
+    # events_to_objs: model (`separateEvents` + `e2oStream`) vs implementation on the events of every stream (strict and warn
+    # mode, corrupted streams included) and of truncated streams (partial event lists)
+    eops = []
+    for c in cases:
+        eops.append(("E2OS", "S", c.data))
+        eops.append(("E2OS", "W", c.data))
+        if c.data:
+            eops.append(("E2OS", rnd.choice("SW"), c.data[:rnd.randrange(len(c.data))]))
+    eimpl = core.run_impl(eops)
+    emodel = core.run_model([core.op_line(o) for o in eops])
+    ebad = [i for i in range(len(eops)) if eimpl[i] != emodel[i]]
+    if ebad:
+        i = min(ebad, key=lambda j: len(eops[j][2]))
+        k, e, g = __import__("suites").first_diff(emodel[i], eimpl[i])
+        ctx.violations.append({"kind": "correspondence", "what": "events_to_objs model and implementation disagree",
+                               "replay": {"correspondence": "E2OS", "mode": {"S": "strict", "W": "warn"}[eops[i][1]], "hex": eops[i][2].hex(),
+                                          "line": k, "model": (e or "")[:300], "impl": (g or "")[:300], "disagreements": len(ebad)}})
+    e2os_kinds = collections.Counter(("raises" if (l and l[-1] == "O crash") else "objects") for l in eimpl)
     lens = collections.Counter(len(c.meta["parts"]) for c in cases)
     ctx.stats.update({
         "evaluations": len(cases) + len(singles) + len(okc),
@@ -135,14 +154,16 @@ def run(ctx, replay_case):
                 "decodes (response under the preceding command's code and encrypt flag), first failing message's events and error; "
                 "events_to_objs == one object per message; non-trivial = more than one message",
         "samples": [{"messages": len(c.meta["parts"]), "hex": c.data.hex()[:120]} for c in cases[:: max(1, len(cases) // 5)]][:5],
-        "correspondence": {"ops": len(cases), "stream_spec_ops": len(okc), "stream_spec_rejections_or_mismatches": nspec},
+        "correspondence": {"ops": len(cases) + len(eops), "stream_spec_ops": len(okc), "events_to_objs_ops": len(eops), "stream_spec_rejections_or_mismatches": nspec},
         "distribution": {"kinds": ds.kinds_distribution(cases), "messages_per_stream": {str(k): v for k, v in sorted(lens.items())},
-                         "stream_failures": nbad, "object_failures": nobj,
+                         "stream_failures": nbad, "object_failures": nobj, "events_to_objs_results": dict(e2os_kinds),
                          "outcomes": dict(collections.Counter(ds.outcome(b) for b in simpl))},
     })
 
 
-PROP = {"targets": ["TpmProofs.Props.AcceptIff"], "module": "TpmProofs.Props.AcceptIff", "theorems": THEOREMS, "run": run,
+PROP = {"targets": ["TpmProofs.Props.C09E"], "module": "TpmProofs.Props.C09E", "theorems": THEOREMS, "run": run,
         "assumptions": ["the pairing theorem (MsgWF.c09_stream) is over well-formed exchanges (`specStream`, TpmModel/MsgSpec.lean); for streams with a "
                         "malformed message the equality with per-message decodes is monitored + tied by correspondence, the stream loop's "
-                        "step and termination behaviour are theorems"]}
+                        "step and termination behaviour are theorems",
+                        "'one object per message' (events_to_objs) is a theorem for every cleanly ending stream (C09.c09_objects) over the model "
+                        "`separateEvents`/`e2oStream`, tied by the E2OS correspondence; for streams that raise it is tied by correspondence only"]}
